@@ -140,6 +140,11 @@ fn spawn_worker(index: Arc<Index>) -> Worker {
 }
 
 pub fn run_text(b: &mut Built, text: &str) -> Out {
+  // debugging aid for process aborts (allocation failure, stack overflow): with
+  // VERIF_C16_TRACE=<prefix> every thread keeps its current request in <prefix>.<thread>
+  if let Ok(prefix) = std::env::var("VERIF_C16_TRACE") {
+    let _ = std::fs::write(format!("{prefix}.{:?}", std::thread::current().id()), text);
+  }
   if b.worker.tx.send(text.to_string()).is_err() {
     b.worker = spawn_worker(b.index.clone());
     let _ = b.worker.tx.send(text.to_string());
@@ -688,6 +693,90 @@ fn run_plan_item(b: &mut Built, drv: &mut Driver, case: &Value, item: &Value, s:
   }
 }
 
+// ---------------------------------------------------------------- stream: isolated (child process)
+
+/// An allocation failure (`with_capacity(n)` / `vec![x; n]` with a request-supplied n) aborts
+/// the process: no unwinding, `catch_unwind` never sees it.  Requests with one huge size
+/// parameter therefore run in a child `slh C16 --replay <file>`; the parent classifies the
+/// child's exit.  ok | error | panic | hang come back through the child's summary.
+fn run_isolated_item(case: &Value, item: &Value, s: &mut Summary) {
+  let mut sub = single(case, item);
+  sub["kind"] = json!("req");
+  let mut reported = single(case, item);
+  reported["kind"] = json!("isolated");
+  let dir = scratch();
+  let inp = dir.path().join("case.json");
+  let outp = dir.path().join("out.json");
+  if std::fs::write(&inp, json!({"case": sub}).to_string()).is_err() {
+    return;
+  }
+  let exe = match std::env::current_exe() {
+    Ok(e) => e,
+    Err(_) => return,
+  };
+  let child = std::process::Command::new(exe)
+    .args(["C16", "--replay", inp.to_str().unwrap_or(""), "--out", outp.to_str().unwrap_or("")])
+    .env_remove("VERIF_C16_TRACE")
+    .env("VERIF_JOBS", "1")
+    .stdin(std::process::Stdio::null())
+    .stdout(std::process::Stdio::null())
+    .stderr(std::process::Stdio::piped())
+    .spawn();
+  let Ok(mut child) = child else {
+    s.count("isolated.spawn-failed");
+    return;
+  };
+  let t0 = std::time::Instant::now();
+  let status = loop {
+    match child.try_wait() {
+      Ok(Some(st)) => break Some(st),
+      Ok(None) if t0.elapsed() > Duration::from_secs(60) => {
+        let _ = child.kill();
+        let _ = child.wait();
+        break None;
+      }
+      Ok(None) => std::thread::sleep(Duration::from_millis(20)),
+      Err(_) => break None,
+    }
+  };
+  let mut stderr = String::new();
+  if let Some(mut e) = child.stderr.take() {
+    use std::io::Read;
+    let _ = e.read_to_string(&mut stderr);
+  }
+  let label = item["param"].as_str().unwrap_or("?");
+  let summary: Option<Value> = std::fs::read_to_string(&outp).ok().and_then(|t| serde_json::from_str(&t).ok());
+  match (status, summary) {
+    (Some(st), Some(sum)) if st.success() => {
+      // the child ran the request in-process: take over its verdicts
+      s.case(&reported, true);
+      let fs = sum["failures"].as_array().cloned().unwrap_or_default();
+      if fs.is_empty() {
+        let cls = sum["distribution"].as_object().and_then(|d| d.keys().find(|k| k.starts_with("huge.")).cloned()).unwrap_or_else(|| "huge.?".into());
+        s.count(&format!("isolated.{}", cls.trim_start_matches("huge.")));
+      }
+      for f in fs {
+        s.count("isolated.panic-or-hang");
+        // the panic site of a size problem is inside std: the parameter names the input class
+        let sig = format!("{}@{label}", f["sig"].as_str().unwrap_or("?"));
+        s.fail(&sig, f["what"].as_str().unwrap_or(""), &reported, f["observed"].clone());
+      }
+    }
+    (st, _) => {
+      s.case(&reported, true);
+      s.count("isolated.process-died");
+      let first = stderr.lines().next().unwrap_or("").to_string();
+      let why = if first.contains("memory allocation of") { "alloc" } else if first.contains("stack overflow") || stderr.contains("stack overflow") { "stack-overflow" } else if st.is_none() { "timeout" } else { "died" };
+      s.fail(
+        &format!("abort.{why}.{label}"),
+        "the process running IndexReader::search was killed (no unwinding: abort)",
+        &reported,
+        json!({"exit": st.map(|x| format!("{x:?}")), "stderr": stderr.chars().take(300).collect::<String>()}),
+      );
+    }
+  }
+}
+
 // ---------------------------------------------------------------- the property
 
 fn case_of(rng: &mut Rng, kind: &str, min_docs: usize) -> Value {
@@ -707,6 +796,24 @@ impl Prop for C16 {
     tier.pick(540, 24_000)
   }
   fn gen(&self, rng: &mut Rng, _tier: Tier, i: usize) -> Value {
+    // VERIF_C16_ONLY=isolated: exploration knob (every case from the isolated stream)
+    if i % 36 == 35 || std::env::var("VERIF_C16_ONLY").as_deref() == Ok("isolated") {
+      // one huge size parameter per request, each in a child process
+      let mut c = case_of(rng, "isolated", 3);
+      let n = 3;
+      c["items"] = Value::Array(
+        (0..n)
+          .map(|_| {
+            // only sizes whose allocation fails at once (2^40 elements) or overflows: a size the
+            // allocator grants (2^32) would make the child fill tens of GB
+            let huge = *rng.pick(&[1u64 << 40, 1u64 << 50, u64::MAX, i64::MAX as u64]);
+            let (label, req) = gen::huge_param_request(rng, huge);
+            json!({"stream": "huge", "param": label, "req": req})
+          })
+          .collect(),
+      );
+      return c;
+    }
     match i % 12 {
       0..=3 => {
         let mut c = case_of(rng, "req", 0);
@@ -833,6 +940,13 @@ impl Prop for C16 {
   }
 
   fn run_case(&self, drv: &mut Driver, case: &Value, s: &mut Summary) {
+    if case["kind"] == json!("isolated") {
+      s.count("case.isolated");
+      for item in case["items"].as_array().cloned().unwrap_or_default() {
+        run_isolated_item(case, &item, s);
+      }
+      return;
+    }
     let mut b = match build(case) {
       Ok(b) => b,
       Err(e) => {
